@@ -306,3 +306,20 @@ class WithMeta:  # a bare (unsubscripted) mapping member
 class NFHolder:  # optional members written None-first (their __args__ start with NoneType)
     when: None | datetime.date = None
     who: t.Union[None, FPoint] = None
+
+
+class Swap(enum.Enum):  # each member's value is spelled like the *other* member's name
+    UP = "DOWN"
+    DOWN = "UP"
+
+
+@dataclasses.dataclass
+class WithCV:  # a ClassVar pseudo-field next to real fields
+    x: int
+    registry: t.ClassVar[dict] = {}
+    label: str = "l"
+
+
+class Kind(str, enum.Enum):  # str-mixin whose values are other members' names
+    A = "B"
+    B = "A"
